@@ -27,6 +27,9 @@ CLAIMED = {
  "C10": ("other", "clone isomorphism of string/[]byte twins (generated wire programs and basictl clone pairs) modulo a declared substitution",
          "Decides that each []byte twin has the same TL1/TL2 wire programs, slot tables and nested-call order as its string version modulo the declared substitution, that slice-backed dictionary readers keep what they decode, and that the basictl clone pairs are AST-isomorphic modulo (utf8.ValidString↔Valid, DecodeRuneInString↔DecodeRune, string(x)↔x).",
          "trusts C33 for primitive pairs; corpus-bounded", "DESIGN.md §3 C10"),
+ "C15": ("other", "map-order taint classification over the SSA/VTA-reachable generator code + who-may-call rules for clock/random sources and goroutine spawns + sort-dominance on input walking",
+         "Decides that every range-over-map reachable from the generators' mains is commutative, collect-then-sort, or a site confirmed by reading (frozen table); that map-order helper results are sorted at each call site; that clock/random/pid sources and goroutine spawns occur only at listed owners; that input files are added in the sorted order of WalkDeterministic. Three genuine deviations are known findings (TLO timestamp, two map-order races in the legacy C++ placement). go/format determinism is trusted.",
+         "trusts go/ssa+VTA reachability and the frozen site table (36 sites read by hand, reasons in the checker)", "DESIGN.md §3 C15"),
  "C16": ("other", "who-may-call rule over the SSA/VTA call graph + ordering rules on the two directory writers",
          "Decides that every file-system mutator call site in the generator packages belongs to a confirmed owner, that in both directory writers the marker test precedes every mutation except creating the outdir, that mutated paths are the outdir or filepath.Join(outdir,…), that handled files leave the stale set, unchanged files are not rewritten and remaining stale files are removed. File-system races are not decided.",
          "trusts go/ssa+VTA (x/tools v0.29.0) and os semantics", "DESIGN.md §3 C16"),
@@ -54,6 +57,12 @@ CLAIMED = {
  "C33": ("other", "decision-table extraction from basictl source compared with the documented layout and across sibling functions",
          "Decides the layout tables of TL1 strings (arm guards, header sizes, length byte positions/shifts, padding bases, non-minimal and non-zero-padding rejections, residue (-p) mod 4 on both sides), TL2 varlen sizes in Write/Put/Calculate/Parse, fixed-width pairs (little-endian, reader consumes what writer appends), bit vectors (8 per byte, LSB first, partial tail) and that every truncation guard returns io.ErrUnexpectedEOF, for pkg/basictl and the two linked copies. Does not execute a round trip.",
          "trusts the frozen documented tables, encoding/binary, go/types constant folding", "DESIGN.md §3 C33"),
+ "C34": ("other", "table extraction of JSON primitive writers and of the generated JSON number/string readers",
+         "Decides the writer tables (strconv appenders with matching signedness/base/bit size, NaN/±Inf spellings, UTF-8 test first, base64 StdEncoding envelope, safeSet excludes control bytes, quote and backslash, escape arms, U+2028/9) and the reader tables of the generated Json2Read helpers (ParseInt/ParseUint/ParseFloat with the same signedness and bit size, lexer method for the number form, base64 object as the only object form), plus clone isomorphism of the string/[]byte writers. strconv and the easyjson lexer are trusted; no value is round-tripped.",
+         "trusts strconv, encoding/base64, easyjson", "DESIGN.md §3 C34"),
+ "C42": ("other", "lockset + control-dependence (admission guard) + pairing (wake-up before unlock) rules on the semaphore source",
+         "Decides that cur/size/waiters are accessed only with mu held in the property's operations, that every non-forced cur += n is control-dependent on size-cur >= n for the same n (fast paths also on an empty queue), that every capacity-raising statement or waiter removal is followed by notifyWaiters before the unlock, and that notifyWaiters admits from the front with cur+=n, Remove, close together. Liveness under the scheduler and fairness are not decided.",
+         "clause only; trusts sync.Mutex and container/list", "DESIGN.md §3 C42"),
  "C43": ("other", "who-may-write rule inside each accessor + agreement with the presence table of readers/writers",
          "Decides for every generated SetF/ClearF/IsSetF that it assigns/resets exactly F, sets/clears/tests exactly the presence bits that readers and writers use for F (TL1 mask bit incl. external mask pointer, TL2 presence bit), touches no other field or bit, and that no TL2 presence bit is owned by two fields; union variant accessors agree on the variant index and value field with the TL1 reader.",
          "for true-type bit fields (no struct field) the tie name↔bit is checked only as a mirror pair known to the readers plus uniqueness; corpus-bounded", "DESIGN.md §3 C43"),
